@@ -518,6 +518,10 @@ def _gen_values(thorough):
         for i in sq:
             flat(i, fl)
         yield text, merged(fl)
+    # braces around something that is not a variable name are text, like any other brace - and the variables around them are still variables
+    yield "{{ user.name }} has {{ name }} items", [("lit", "{{ user.name }} has "), ("var", "name"), ("lit", " items")]
+    yield "write {{ in mustache then hello {{ name }}", [("lit", "write {{ in mustache then hello "), ("var", "name")]
+    yield "{{n2}} and {{ a b }} and <b>{{ name }}</b>", [("var", "n2"), ("lit", " and {{ a b }} and "), ("open", "b"), ("var", "name"), ("close", "b")]
 
 
 def _flatten_value(v, out):
@@ -607,9 +611,19 @@ def r0_parse(ctx):
     macros = absint.file_macros(ast, PV)
     S = lambda x: ("str", x)  # noqa: E731
 
+    def _disp0(v):
+        # Display of a Literal (Literal::join builds the joined text with it)
+        if v[0] == "ctor" and v[1] in ("String", "Signed", "Unsigned", "Float", "Bool") and v[2]:
+            x = v[2][0]
+            if x[0] == "atom" and x[1].startswith("float:"):
+                return ("float", x[1][6:])
+            return ("str", x[1] if x[0] == "str" else (("true" if x[1] else "false") if x[0] == "bool" else str(x[1])))
+        return ("str", absint.fmt(v))
+
     def mk():
         ev = AEval(funcs=funcs, builtins={"unwrap_at": lambda rv, a: rv[2][0] if rv[0] == "ctor" and rv[2] else rv})
         ev.macros = macros
+        ev.display = _disp0
         ev.path_builtins = {"Key::new": lambda a: C("Some", CF("Key", name=a[0])) if a[0][0] == "str" and re.match(r"^[A-Za-z_][A-Za-z0-9_]*$", a[0][1]) else C("None"),
                             "Formatter::from_name_and_args": lambda a: C("Ok", C("Some", C("FormatterNone")))}
         return ev
